@@ -259,9 +259,16 @@ def drive_resampler(rng, n, w, scheme, blobs):
             rs.run(np.ones(md) / md)
             sm.update_from_dict(sm_real.to_dict())
             sm.set_current("beta", float(sm_real.get_current("beta")))
-        rs.run(wn.copy())
+        # one resampling step = one draw: the systematic scheme asks for one uniform, the multinomial scheme for one batch of indices.
+        # (A step that looks at its draw and draws again conditions the result on the draw.)
+        with Tap(log=True, cap=None) as tapr:
+            rs.run(wn.copy())
+        ndraw = {k_: int(v_) for k_, v_ in tapr.counts.items() if v_}
     except Exception as e:
         return [(f"resampler-exception-{type(e).__name__}", f"Resampler.run({scheme}) raised {e}", None)]
+    if sum(ndraw.values()) != 1:
+        bad.append(("resampler-draws-again", f"Resampler.run({scheme}) made the random draws {ndraw} for one resampling step (one call expected, whichever numpy routine); "
+                    f"largest n*w = {float(n * wn.max()):.3f} of n = {n}", None))
     cur = sm.get_current()
     ids = np.rint(-cur["logl"]).astype(int)
     if cur["u"].shape != (n, 2) or cur["logl"].shape != (n,):
